@@ -46,6 +46,9 @@ def run(out, tier, seed):
             one += [fwd, back]
         else:
             one.append(fwd if k % 2 == 0 else back)
+    # every seed by itself: warm, fresh and fresh-asked-in-reverse must agree (no dependence on query order or instance)
+    one += [{"hist": [{"op": {"k": "seed", "f": 0, "i": 0, "x": ""}, "files": w["files"], "dep": True, "dup": False, "batched": False}], "check_seed": True}
+            for w in allseeds]
     s1 = run_hist(out, one, seed, "single")
     del ws_common.LEX_FAILS[:]      # a lexer failure on a seed is C10's to report
     out.cov["traces_validated_against_impl"] += s1["histories"]
